@@ -217,13 +217,25 @@ def load_known():
     return json.load(open(p))["findings"]
 
 
+unmodelled = [0]
+
+
 def classify(rows, prop, known_tags):
     """returns (violations, known_hits, tie_breaks, not_reproduced, agreements)"""
     viol, known, ties, notrep, agree = [], {}, [], [], 0
+    global unmodelled
     for row in rows:
         inp, impl, model, spec, cls, branch = row
         tags = set() if cls in ("-", "") else set(cls.split(","))
         same = impl == model
+        if model in ("unmodelled", "-"):
+            # the model deliberately says nothing here (documented per op): only the spec judges
+            if fail:
+                viol.append((row, "spec-failure-on-unmodelled-op"))
+            else:
+                agree += 0
+                unmodelled[0] += 1
+            continue
         fail = spec.startswith("FAIL")
         listed = bool(tags) and tags <= known_tags
         if model in ("bad-op", "bad-line", "driver-died") or impl == "bad-op":
@@ -471,6 +483,7 @@ def write_evidence(prop, cfg, tier, seed, info, rows, viol, known, ties, notrep,
             "traces_validated_against_impl": agree,
             "impl_equals_model": agree + sum(len(v) for v in known.values()),
             "tie_breaks": len(ties),
+            "spec_only_cases_model_silent": unmodelled[0],
             "violating_cases": len(viol),
             "known_finding_cases": {k: len(v) for k, v in known.items()},
             "finding_not_reproduced": len(notrep),
